@@ -367,6 +367,12 @@ pub(crate) fn maybe_emit_long_jump(pc: usize, target: usize) -> Vec<u32> {
     let page_target = target & !0xfff;
     let page_diff = ((page_target as i64).wrapping_sub(page_pc as i64)) >> 12;
 
+    // ADRP holds a signed 21-bit page displacement (+-4GB): refuse what it cannot encode
+    // instead of letting the immediate wrap around.
+    if !(-(1i64 << 20)..(1i64 << 20)).contains(&page_diff) {
+        panic!("Target is out of ADRP range: page displacement = {page_diff}, expected +-4GB");
+    }
+
     // Split up the page difference into a 21 bit signed immediate.
     let imm21 = (page_diff as u64) & 0x1f_ffff;
     let immlo = (imm21 & 0b11) as u32;
